@@ -219,7 +219,7 @@ class FrameOp:
                 return res(NOOP)
             run.expect_ok(run.call(lambda: h.append_rows([list(r) for r in rows])), "df_append_rows")
             m.rows.extend(model_rows(rows, m.cols))
-            if run.extra.get("colappended:%d" % id(m)):
+            if run.extra.get("colappended:%d" % m.uid):
                 run.stats["append_rows_after_append_column"] += 1
         elif how == "append_column":
             if len(o["col"]) != n or o["cname"] in [c for c, _ in m.cols]:
@@ -232,7 +232,7 @@ class FrameOp:
             m.rows = [tuple(r) + (c,) for r, c in zip(m.rows, col)]
             if m.units is not None:
                 m.units = list(m.units) + [None]
-            run.extra["colappended:%d" % id(m)] = True
+            run.extra["colappended:%d" % m.uid] = True
             run.stats["df_append_column"] += 1
         elif how == "write_rows":
             index = [i for i in o["index"] if 0 <= i < n]
